@@ -16,7 +16,8 @@ import _files_util as U  # noqa: E402
 import _pool_util as PU  # noqa: E402
 
 RUN_IN_SUBPROCESS = False  # only kind=tmp_multiproc starts processes; it isolates itself
-CASE_TIMEOUT_S = 30
+CASE_TIMEOUT_S = 30      # in-process watchdog of the driver
+ISOLATED_TIMEOUT_S = 22  # hard timeout of the self-isolated multi_proc cases (body watchdog: 14 s)
 
 TMP_OPS = ["c", "r0", "r1", "e0", "f"]  # create, remove model[0], remove model[1], remove an externally deleted
 #                                          file, flush; "x" = the body raises here (always last)
@@ -277,7 +278,7 @@ def _mp_body(case):
     import multiprocessing
     from windpyutils.files import TmpPool
     variant = case["variant"]
-    with U.Scratch() as sc:
+    with U.Scratch(kill_children=True) as sc:
         d = sc.path("pool")
         os.mkdir(d)
         model, everything = [], []
@@ -344,8 +345,8 @@ def _mp_body(case):
 
 def _run_tmp_multiproc(case):
     if os.environ.get("L2_CHILD") != "1":
-        return PU.run_isolated("C20", case, None, CASE_TIMEOUT_S)
-    return PU.guarded(lambda: _mp_body(case), CASE_TIMEOUT_S - 8, "tmppool/multiproc")
+        return PU.run_isolated("C20", case, None, ISOLATED_TIMEOUT_S)
+    return PU.guarded(lambda: _mp_body(case), ISOLATED_TIMEOUT_S - 8, "tmppool/multiproc")
 
 
 def run_case(case):
